@@ -163,6 +163,7 @@ Definition cover_ok (st : state) (hide : bool) (sel : list N) : bool :=
 
 (* no selected block's sources are contained in another selected block's *)
 Definition antichain_ok (st : state) (sel : list N) : bool :=
+  nodup N.eqb sel &&
   forallb (fun i => forallb (fun j => N.eqb i j ||
      match find st i, find st j with
      | Some a, Some c => negb (subN (m_sources a) (m_sources c))
@@ -199,11 +200,12 @@ Fixpoint served_steps (init : list (N * list sample)) (st : state) (l : list ste
       served_ok init st' s0 && served_ok init st' s1 && served_steps init st' r
   end.
 
-Definition final_state (st : state) (l : list step) : state :=
-  fold_left apply_hop (map (fun s => fst (fst s)) l) st.
-
-Definition last_sel (d : list N * list N) (l : list step) : list N * list N :=
-  match rev l with [] => d | (_, s0, s1) :: _ => (s0, s1) end.
+(* the state and the two selections after the last event *)
+Fixpoint last_view (st : state) (s0 s1 : list N) (l : list step) : state * list N * list N :=
+  match l with
+  | [] => (st, s0, s1)
+  | (o, a, b) :: r => last_view (apply_hop st o) a b r
+  end.
 
 Definition cover_all (c : case) : bool :=
   match c with
@@ -225,10 +227,17 @@ Definition once_ok (c : case) : bool :=
   match c with
   | CHist _ init s0 s1 steps q =>
       if q then
-        let st := final_state (init_state init) steps in
-        let (f0, f1) := last_sel (s0, s1) steps in
-        nodup sample_eqb (served_list st f0) && nodup sample_eqb (served_list st f1)
+        match last_view (init_state init) s0 s1 steps with
+        | (st, f0, f1) => nodup sample_eqb (served_list st f0) && nodup sample_eqb (served_list st f1)
+        end
       else true
+  end.
+
+(* the original blocks share no sample (no overlapping input) *)
+Fixpoint orig_disjoint_b (init : list (N * list sample)) : bool :=
+  match init with
+  | [] => true
+  | p :: r => forallb (fun q => disjoint sample_eqb (snd p) (snd q)) r && orig_disjoint_b r
   end.
 
 Definition pred_ok (c : case) : bool := cover_all c && served_all c && once_ok c.
